@@ -1302,9 +1302,26 @@ class Compiler:
             "errors = len(rcontext.get('__error__', ()))", errors=errors
         )
 
-        self._enter_assignment((node.name, ))
+        # What the guarded element had defined when it failed ends with
+        # it: keep the local variables as they are now.
+        # (global definitions made before the failure persist.)
+        scope = identifier("__scope", id(node))
+        rscope = identifier("__rscope", id(node))
+        body += template("scope = dict.copy(econtext)", scope=scope)
+        body += template("rscope = dict.copy(rcontext)", rscope=rscope)
+        restore_scope = template(
+            "dict.clear(econtext)\n"
+            "dict.update(econtext, scope)\n"
+            "for __k, __v in rcontext.items():\n"
+            "    if rscope.get(__k, __marker) is not __v: econtext[__k] = __v",
+            scope=scope, rscope=rscope
+        )
+
+        # The error variable is defined for the fallback only
+        names = (node.name, )
+        enter_error = list(self._enter_assignment(names))
         fallback_body = self.visit(node.fallback)
-        self._leave_assignment((node.name, ))
+        leave_error = list(self._leave_assignment(names))
 
         error_assignment = template(
             "econtext[key] = cls(__exc, __tokens[__token][1:3] "
@@ -1320,13 +1337,16 @@ class Compiler:
             handlers=[ast.ExceptHandler(
                 type=ast.Tuple(elts=[Builtin("Exception")], ctx=ast.Load()),
                 name="__exc",
-                body=(error_assignment +
+                body=(restore_scope +
+                      enter_error +
+                      error_assignment +
                       template("del __stream[fallback:]", fallback=fallback) +
                       template(
                           "del rcontext.get('__error__', [])[errors:]",
                           errors=errors
                       ) +
-                      fallback_body
+                      fallback_body +
+                      leave_error
                       ),
             )],
             finalbody=[],
